@@ -47,7 +47,12 @@ func main() {
 	kit.Main(kit.World{Name: "fsworld", Run: run, Enum: enumerate})
 }
 
-var sizes = []int{0, 1, 4095, 32768, 32769, 65536, 100000, 1 << 20, sparseSize}
+var sizes = []int{0, 1, 4095, 32768, 32769, 65536, 100000, 1 << 20, sparseSize, 5<<20 + 3}
+
+// nEnumSizes: the sizes whose scenarios and single-fault placements are
+// enumerated; the remaining one ("several MiB": about a hundred copy blocks)
+// is only drawn by the seeded part
+const nEnumSizes = 9
 
 // sparseSize: a source of three copy blocks whose middle block is all zeros
 // (what a sparse-aware copy would skip)
@@ -660,7 +665,7 @@ func enumerate(prop string) [][]int {
 	var scs []sc
 	os.Setenv("FSWORLD_REALFS", "0")
 	for op := 0; op < 2; op++ {
-		for size := range sizes {
+		for size := 0; size < nEnumSizes; size++ {
 			for sk := range srcKinds {
 				for dk := range dstKinds {
 					c := append(append([]int{}, prefix...), op, size, sk, dk)
@@ -692,7 +697,7 @@ func enumerate(prop string) [][]int {
 	// (b2) every scenario whose destination is a name of its own, fault-free,
 	// after an earlier CopyFile of the same two path strings
 	for op := 0; op < 2; op++ {
-		for size := range sizes {
+		for size := 0; size < nEnumSizes; size++ {
 			for sk := range srcKinds {
 				for dk := range dstKinds {
 					if samePairApplies(scenario{DstKind: dk}) {
